@@ -144,6 +144,16 @@ func (e *Engine) lemmaFact(from *FuncContract, name string) (*Term, error) {
 		}
 		if len(ts) > 0 {
 			pats = append(pats, ts)
+			// a trigger that is one application of a thin spec wrapper (body: one application over exactly
+			// its parameters, or such an application compared with a constant - e.g. "the error result of
+			// url.PathUnescape(s) is nil") is also instantiated from the wrapped term: the same wrapper
+			// exists once per package (the stdlib files are copied into each), and a goal stated through
+			// another package's copy shows only the wrapped term
+			if len(ts) == 1 {
+				if w := e.unwrapSpecApp(ts[0]); w != nil {
+					pats = append(pats, []*Term{w})
+				}
+			}
 		}
 	}
 	if len(pats) == 0 {
@@ -182,7 +192,7 @@ func (e *Engine) VerifyFunc(fc *FuncContract) *FuncResult {
 	for _, b := range fn.Blocks {
 		res.NInstr += len(b.Instrs)
 	}
-	ctx := &vcCtx{e: e, fnKey: res.Key, noOverflow: fc.NoOverflow != "", wrapSigned: fc.Wraparound != "", fuel: fc.Fuel}
+	ctx := &vcCtx{e: e, fnKey: res.Key, noOverflow: fc.NoOverflow != "", wrapSigned: fc.Wraparound != "", fuel: fc.Fuel, reveal: fc.Reveal}
 	fr := &frame{e: e, c: ctx, fn: fn, pkg: e.PkgOf[fc], vals: map[ssa.Value]*Val{}, st: newState(), reach: TTrue, fc: fc, top: true,
 		inline: map[string]bool{}}
 	for _, n := range fc.Inline {
@@ -318,4 +328,37 @@ func (e *Engine) verifyLemma(l *FuncContract, res *FuncResult) *FuncResult {
 	}
 	res.Obligations = ctx.obls
 	return res
+}
+
+// unwrapSpecApp: for t = f(a1..an) with f a non-recursive spec symbol whose body is g(x1..xn) or
+// (= g(x1..xn) c) over exactly f's parameters, the term g(a1..an); nil otherwise.
+func (e *Engine) unwrapSpecApp(t *Term) *Term {
+	if t == nil || t.Op == "" {
+		return nil
+	}
+	for _, s := range e.Defs.syms {
+		if s.Recursive || s.Uninterpreted || len(s.names) != 1 || s.names[0] != t.Op || len(s.Bodies) != 1 || s.Bodies[0] == nil {
+			continue
+		}
+		b := s.Bodies[0]
+		if b.Op == "=" && len(b.Args) == 2 && len(b.Args[1].Args) == 0 {
+			b = b.Args[0]
+		}
+		if b.Op == "" || len(b.Args) != len(s.Params) || len(t.Args) != len(s.Params) {
+			return nil
+		}
+		switch b.Op {
+		case "ite", "=", "and", "or", "not", "+", "-", "<", "<=":
+			return nil
+		}
+		m := map[string]*Term{}
+		for k, a := range b.Args {
+			if a.String() != s.Params[k].String() {
+				return nil
+			}
+			m[s.Params[k].Name] = t.Args[k]
+		}
+		return Subst(b, m)
+	}
+	return nil
 }
